@@ -33,7 +33,9 @@ func (s *c12s) scripted() {
 	T2 := s.txCreate(3, 1, true, false, 2, "False", "create:token-nonrepl")
 	F := s.txCreate(3, 1, true, true, 2, "true", "create:frozen-at-birth")
 	X := s.txCreate(4, 1, true, true, 2, "-", "create:attacker-token")
-	s.runBlock([]*c12Tx{T, N, C, D, T2, F, X,
+	s.bigNext = true
+	big := s.txCreate(5, 1, true, true, 2, "-", "create:marshal-too-long")
+	s.runBlock([]*c12Tx{T, N, C, D, T2, F, X, big,
 		s.txCreate(5, 0, true, true, 2, "-", "create:cat0"),
 		s.txCreate(5, 4, true, true, 2, "-", "create:cat4"),
 		s.txCreate(5, 1, false, true, 2, "-", "create:token-nondiv"),
@@ -51,7 +53,13 @@ func (s *c12s) scripted() {
 	iC := s.txIssue(2, 4, cC, "s:50", 1, "issue:common-div")
 	iD := s.txIssue(2, 4, cD, "s:9", 2, "issue:common-nondiv")
 	iE := s.txIssue(2, 6, cC, "s:11", 0, "issue:empty-metadata")
-	s.runBlock([]*c12Tx{
+	s.nilNext = true
+	iNil := s.txIssue(1, 0, cT, "s:3", 3, "issue:nil-to")
+	unknown := common.HexToHash("0xdead")
+	// offered to the miner path right after this block became stable, BEFORE the code->issuer index is waited for (only counted)
+	probe := s.txTransferA(2, 3, cT, "s:1", "probe")
+	s.runBlockOpt([]*c12Tx{
+		iNil,
 		s.txIssue(1, 2, cT, "s:100", 3, "issue:token"),
 		s.txIssue(1, 3, cT, "s:100", 3, "issue:token"),
 		s.txIssue(1, 3, cT, "s:0", 3, "issue:zero"),
@@ -65,13 +73,33 @@ func (s *c12s) scripted() {
 		s.txIssue(3, 3, cF, "s:10", 0, "issue:frozen-at-birth"),
 		s.txIssue(3, 5, cT2, "s:40", 5, "issue:token-nonrepl"),
 		s.txIssue(1, 2, common.Hash{}, "s:5", 0, "issue:zero-code"),
-		s.txIssue(1, 2, common.HexToHash("0xdead"), "s:5", 0, "issue:unknown-code"),
+		s.txIssue(1, 2, unknown, "s:5", 0, "issue:unknown-code"),
 		s.txTransferA(2, 3, cT, "s:1", "transfer:same-block-as-issue"),
-	})
+	}, false, probe)
 	if s.stop {
 		return
 	}
 	idN, idC, idD, idE := s.hashes[iN.h2], s.hashes[iC.h2], s.hashes[iD.h2], s.hashes[iE.h2]
+	// --- blocks B2..B4: the stable block lags behind the parent: asset Y is created in a block that is NOT confirmed;
+	//     the next block (built on it, also unconfirmed) cannot issue Y: VerifyAssetTx reads the STABLE state; a token
+	//     issued in B (stable) still moves. After the confirmation of B3 everything is stable again.
+	Y := s.txCreate(6, 1, true, true, 2, "-", "create:in-unconfirmed-block")
+	s.runBlockOpt([]*c12Tx{Y}, true, nil)
+	if s.stop {
+		return
+	}
+	s.runBlockOpt([]*c12Tx{
+		s.txIssue(6, 6, s.codeOf(Y), "s:5", 3, "issue:asset-created-in-unconfirmed-parent"),
+		s.txModify(6, s.codeOf(Y), "true", "modify:asset-created-in-unconfirmed-parent"),
+		s.txTransferA(3, 2, cT, "s:1", "transfer:while-stable-lags"),
+	}, false, nil)
+	if s.stop {
+		return
+	}
+	s.runBlock([]*c12Tx{s.txIssue(6, 6, s.codeOf(Y), "s:5", 3, "issue:after-stable-caught-up")})
+	if s.stop {
+		return
+	}
 	// --- block C1: THE witness, alone in its block: Bob (3) sends -60 to Alice (2); both hold 100
 	s.runBlock([]*c12Tx{s.txTransferA(3, 2, cT, "s:-60", "transfer:negative-to-holder")})
 	if s.stop {
@@ -97,6 +125,21 @@ func (s *c12s) scripted() {
 		s.txTransferA(2, 5, cT, "s:007", "transfer:leading-zeros"),
 		s.txTransferA(4, 6, idC, "s:-20", "transfer:negative-to-non-holder"),
 		s.txTransferA(4, 4, idC, "s:-20", "transfer:negative-self"),
+		s.txTransferA(2, 5, cT, "s:\\u002d60", "transfer:escaped-minus"),
+		s.txTransferA(2, 5, cT, "s:\\u0036", "transfer:escaped-digit"),
+		s.nilTo().txTransferA(2, 0, cT, "s:1", "transfer:nil-to-burns"),
+		s.txTransferA(2, 3, common.Hash{}, "s:1", "transfer:zero-id"),
+	})
+	if s.stop {
+		return
+	}
+	// --- block C3: boxes: a box of two valid asset txs (the issue's id is the SUB tx's hash); a box whose second
+	//     sub-tx fails (the whole box is discarded, the first sub-tx's effect with it); a box whose sub-txs feed each other
+	s.runBlock([]*c12Tx{
+		s.txBoxOf(6, []*c12Tx{s.txTransferA(3, 2, cT, "s:2", "box:transfer"), s.txIssue(2, 6, cC, "s:4", 2, "box:issue-common")}, "box:two-valid"),
+		s.txBoxOf(6, []*c12Tx{s.txTransferA(3, 2, cT, "s:1", "box:transfer"), s.txTransferA(3, 2, cT, "s:999999", "box:oversized")}, "box:second-sub-fails"),
+		s.txBoxOf(5, []*c12Tx{s.txIssue(1, 3, cT, "s:7", 1, "box:issue-token"), s.txTransferA(3, 0, cT, "s:7", "box:burn-what-was-issued")}, "box:issue-then-burn"),
+		s.txBoxOf(5, []*c12Tx{s.txTransferA(3, 2, cT, "s:-1", "box:negative")}, "box:negative-amount"),
 	})
 	if s.stop {
 		return
@@ -121,6 +164,12 @@ func (s *c12s) scripted() {
 		s.txModify(1, cT, "-", "modify:other-key"),
 		s.txModify(4, cT, "true", "modify:non-issuer"),
 		s.txModify(1, cT, "none", "modify:empty"),
+		s.txModify(1, cT, "big", "modify:freeze-with-oversized-description"),
+		s.txReplenish(1, 2, common.Hash{}, cT, "s:5", "replenish:zero-code"),
+		s.txReplenish(1, 2, unknown, cT, "s:5", "replenish:unknown-code"),
+		s.txModify(1, common.Hash{}, "true", "modify:zero-code"),
+		s.txModify(1, unknown, "true", "modify:unknown-code"),
+		s.txReplenish(2, 4, cC, cC, "s:6", "replenish:own-code-as-id"),
 	})
 	if s.stop {
 		return
@@ -147,12 +196,17 @@ func (s *c12s) scripted() {
 	if s.stop {
 		return
 	}
-	// --- block G: unfreeze; foreign asset id: the issuer of X replenishes X under the id of T to account 6's neighbour
-	//     (account 5 holds T only by transfer, account 6 got T by replenish). Use a fresh account-free path: user 4 itself holds no T.
+	// --- block G: unfreeze
+	s.runBlock([]*c12Tx{s.txModify(1, cT, "false", "modify:unfreeze")})
+	if s.stop || s.clean {
+		return
+	}
+	// ======== from here on: the foreign-asset-id witnesses (NOT in clean episodes) ========
+	// --- block G2: the issuer of X replenishes X under the id of T to itself (user 4 holds no T)
 	s.runBlock([]*c12Tx{
-		s.txModify(1, cT, "false", "modify:unfreeze"),
 		s.txReplenish(4, 4, cX, cT, "s:1000000", "replenish:foreign-id"),
 		s.txReplenish(4, 6, cX, cT, "s:5", "replenish:foreign-id-holder-of-other-code"),
+		s.txReplenish(2, 4, cC, common.Hash{}, "s:6", "replenish:zero-id"),
 	})
 	if s.stop {
 		return
@@ -179,8 +233,8 @@ func (s *c12s) scripted() {
 	if s.stop {
 		return
 	}
-	// --- blocks K, L: a frozen asset moves: 50 X parked under T's id in account 5... (account 5 already holds T, so use
-	//     the fresh id of asset C: account 6 holds nothing under idC) ; X is frozen ; a holder of C sends 10 to account 6
+	// --- blocks K, L: a frozen asset moves: 50 X parked under the id of asset C in account 6; X is frozen; a holder of C
+	//     sends 10 to account 6
 	s.runBlock([]*c12Tx{s.txReplenish(4, 6, cX, idC, "s:50", "replenish:foreign-id-then-freeze")})
 	if s.stop {
 		return
@@ -192,10 +246,12 @@ func (s *c12s) scripted() {
 	s.runBlock([]*c12Tx{s.txTransferA(4, 6, idC, "s:10", "transfer:into-frozen-foreign-entry")})
 }
 
+func (s *c12s) nilTo() *c12s { s.nilNext = true; return s }
+
 // ---- random blocks ---------------------------------------------------------------------------
 
 var c12BadAmounts = []string{"s:0", "s:", "s:-0", "s:+5", "s:-60", "s:-1", "s:007", "s:0x15", "s:0x-5", "s:0X10", "s:0x+7", "s:1e3", "s:12a",
-	"s:0x", "s:-", "s:+", "s:1_000", "s:--5", "s:+-5", "s:5.0", "s:0x1f", "s:-0x5", "n:5", "n:-5", "missing",
+	"s:\\u002d60", "s:\\u0036\\u0030", "s:0x", "s:-", "s:+", "s:1_000", "s:--5", "s:+-5", "s:5.0", "s:0x1f", "s:-0x5", "n:5", "n:-5", "missing",
 	"s:115792089237316195423570985008687907853269984665640564039457584007913129639936",
 	"s:-115792089237316195423570985008687907853269984665640564039457584007913129639936",
 	"s:99999999999999999999999999999999999999999999999999999999999999999999999999999999999999999"}
@@ -247,6 +303,47 @@ func (s *c12s) randomBlock() {
 	r := s.c.Rnd
 	nt := 1 + r.Intn(6)
 	var cands []*c12Tx
+	for i := 0; i < nt; i++ {
+		if r.Intn(16) == 0 {
+			ns := 1 + r.Intn(3)
+			var subs []*c12Tx
+			for j := 0; j < ns; j++ {
+				x := s.genOne()
+				// no create inside a box (never indexed by the store: its equity could never move) and no modify that
+				// introduces a profile key (a failing box would leave the key behind): engine defects outside C12, see epilogue
+				for tries := 0; (x.kind == "create" || s.introducesKey(x)) && tries < 20; tries++ {
+					s.c.Count("gen:box-sub-avoided:" + x.kind)
+					x = s.genOne()
+				}
+				if x.kind == "create" || s.introducesKey(x) {
+					x = s.txTransferA(1, 2, common.Hash{}, "s:1", "rnd:filler")
+				}
+				x.class = "box-sub:" + x.class
+				subs = append(subs, x)
+			}
+			cands = append(cands, s.txBoxOf(1+r.Intn(s.nUsers), subs, "rnd:box"))
+			continue
+		}
+		cands = append(cands, s.genOne())
+	}
+	// now and then a block is left unconfirmed: the stable block lags behind the parent (at most two blocks)
+	lag := s.unconf < 2 && r.Intn(6) == 0
+	s.runBlockOpt(cands, lag, nil)
+}
+
+// nativeIDs: issued ids that belong to asset code `code`
+func (s *c12s) nativeIDs(code int) []int {
+	var out []int
+	for _, id := range s.ids {
+		if s.native[id] == code {
+			out = append(out, id)
+		}
+	}
+	return out
+}
+
+func (s *c12s) genOne() *c12Tx {
+	r := s.c.Rnd
 	as := s.createdAssets()
 	held := s.held(true)
 	if len(held) == 0 || r.Intn(6) == 0 {
@@ -254,100 +351,122 @@ func (s *c12s) randomBlock() {
 	}
 	user := func() int { return 1 + r.Intn(s.nUsers) }
 	anyAddr := func() int {
-		switch r.Intn(8) {
+		switch r.Intn(9) {
 		case 0:
 			return 0
 		case 1:
 			return s.nUsers + 1 + r.Intn(2)
+		case 2:
+			if r.Intn(2) == 0 {
+				s.nilNext = true // no To field at all: the engine uses the zero address
+				return 0
+			}
 		}
 		return user()
 	}
-	for i := 0; i < nt; i++ {
-		k := r.Intn(100)
-		switch {
-		case k < 8 || len(as) == 0:
-			cat := uint32(1 + r.Intn(3))
-			div := cat == 1 || (cat == 3 && r.Intn(2) == 0)
-			repl := r.Intn(3) > 0
-			dec := uint32(r.Intn(19))
-			fz := []string{"-", "-", "-", "false", "false", "true", "yes"}[r.Intn(7)]
-			if r.Intn(8) == 0 { // invalid shapes
-				cat = uint32(r.Intn(6))
-				div = r.Intn(2) == 0
-				dec = uint32(r.Intn(25))
-			}
-			cands = append(cands, s.txCreate(user(), cat, div, repl, dec, fz, "rnd:create"))
-		case k < 30:
-			a := as[r.Intn(len(as))]
-			from := a.issuer
-			class := "rnd:issue"
-			if r.Intn(8) == 0 {
-				from = user()
-				class = "rnd:issue-any-sender"
-			}
-			meta := 1 + r.Intn(20)
-			if r.Intn(10) == 0 {
-				meta = 0
-			}
-			if r.Intn(25) == 0 {
-				meta = 250 + r.Intn(12)
-			}
-			cands = append(cands, s.txIssue(from, anyAddr(), s.hashes[a.code], s.amtTok(150), meta, class))
-		case k < 42:
-			a := as[r.Intn(len(as))]
-			from := a.issuer
-			class := "rnd:replenish"
-			if r.Intn(8) == 0 {
-				from = user()
-				class = "rnd:replenish-any-sender"
-			}
-			// id: the code itself (cat 1), an issued id, or (rarely) any known hash (foreign / free id)
-			id := a.code
-			switch {
-			case r.Intn(6) == 0 && len(s.hashes) > 1:
-				id = 1 + r.Intn(len(s.hashes)-1)
-				class = "rnd:replenish-any-id"
-			case a.cat != types.TokenAsset && len(s.ids) > 0:
-				id = s.ids[r.Intn(len(s.ids))]
-			}
-			cands = append(cands, s.txReplenish(from, anyAddr(), s.hashes[a.code], s.hashes[id], s.amtTok(150), class))
-		case k < 52:
-			a := as[r.Intn(len(as))]
-			from := a.issuer
-			class := "rnd:modify"
-			if r.Intn(8) == 0 {
-				from = user()
-				class = "rnd:modify-any-sender"
-			}
-			fz := []string{"true", "false", "false", "false", "-", "none", "TRUE", "1", ""}[r.Intn(9)]
-			cands = append(cands, s.txModify(from, s.hashes[a.code], fz, class))
-		default:
-			class := "rnd:transfer"
-			var from, id int
-			if len(held) > 0 && r.Intn(10) > 0 {
-				h := held[r.Intn(len(held))]
-				from, id = h[0], h[1]
-				if s.keys[from] == nil { // burn address / contract cannot sign
-					from = user()
-					class = "rnd:transfer-any-sender"
-				}
-			} else {
-				from = user()
-				id = r.Intn(len(s.hashes))
-				class = "rnd:transfer-any-sender"
-			}
-			max := 150
-			if e, ok := s.prev.eq[[2]int{from, id}]; ok && e.amt.IsInt64() && e.amt.Int64() > 0 && e.amt.Int64() < 1000000 {
-				max = int(e.amt.Int64()) + 2
-			}
-			to := anyAddr()
-			if r.Intn(12) == 0 {
-				to = from
-			}
-			cands = append(cands, s.txTransferA(from, to, s.hashes[id], s.amtTok(max), class))
+	// the asset code a tx names: now and then the zero hash or a hash that names no asset
+	codeOf := func(a *c12Asset) common.Hash {
+		switch r.Intn(30) {
+		case 0:
+			return common.Hash{}
+		case 1:
+			return common.HexToHash("0xdead")
 		}
+		return s.hashes[a.code]
 	}
-	s.runBlock(cands)
+	k := r.Intn(100)
+	switch {
+	case k < 8 || len(as) == 0:
+		cat := uint32(1 + r.Intn(3))
+		div := cat == 1 || (cat == 3 && r.Intn(2) == 0)
+		repl := r.Intn(3) > 0
+		dec := uint32(r.Intn(19))
+		fz := []string{"-", "-", "-", "false", "false", "true", "yes"}[r.Intn(7)]
+		if r.Intn(8) == 0 { // invalid shapes
+			cat = uint32(r.Intn(6))
+			div = r.Intn(2) == 0
+			dec = uint32(r.Intn(25))
+		}
+		s.bigNext = r.Intn(12) == 0
+		return s.txCreate(user(), cat, div, repl, dec, fz, "rnd:create")
+	case k < 30:
+		a := as[r.Intn(len(as))]
+		from := a.issuer
+		class := "rnd:issue"
+		if r.Intn(8) == 0 {
+			from = user()
+			class = "rnd:issue-any-sender"
+		}
+		meta := 1 + r.Intn(20)
+		if r.Intn(10) == 0 {
+			meta = 0
+		}
+		if r.Intn(25) == 0 {
+			meta = 250 + r.Intn(12)
+		}
+		return s.txIssue(from, anyAddr(), codeOf(a), s.amtTok(150), meta, class)
+	case k < 42:
+		a := as[r.Intn(len(as))]
+		from := a.issuer
+		class := "rnd:replenish"
+		if r.Intn(8) == 0 {
+			from = user()
+			class = "rnd:replenish-any-sender"
+		}
+		// id: the code itself, or an id issued under this code; in episodes with foreign-id inputs (rarely) any known hash
+		id := a.code
+		if nat := s.nativeIDs(a.code); a.cat != types.TokenAsset && len(nat) > 0 && r.Intn(4) > 0 {
+			id = nat[r.Intn(len(nat))]
+		}
+		code := codeOf(a)
+		if !s.clean && r.Intn(6) == 0 {
+			id = r.Intn(len(s.hashes))
+			class = "rnd:replenish-any-id"
+		} else if code != s.hashes[a.code] {
+			id = s.hl(code) // zero / unknown code: keep id = code, so that nothing foreign is named
+		}
+		return s.txReplenish(from, anyAddr(), code, s.hashes[id], s.amtTok(150), class)
+	case k < 52:
+		a := as[r.Intn(len(as))]
+		from := a.issuer
+		class := "rnd:modify"
+		if r.Intn(8) == 0 {
+			from = user()
+			class = "rnd:modify-any-sender"
+		}
+		fz := []string{"true", "false", "false", "false", "-", "none", "TRUE", "1", "", "big"}[r.Intn(10)]
+		code := codeOf(a)
+		if fz == "big" && code == s.hashes[a.code] && !(a.keys[types.AssetFreeze] && a.keys[types.AssetDescription]) {
+			// an oversized update that would introduce a key: the revert leaves the key behind (engine defect outside C12)
+			s.c.Count("gen:oversized-modify-avoided-on-asset-without-the-keys")
+			fz = "-"
+		}
+		return s.txModify(from, code, fz, class)
+	}
+	class := "rnd:transfer"
+	var from, id int
+	if len(held) > 0 && r.Intn(10) > 0 {
+		h := held[r.Intn(len(held))]
+		from, id = h[0], h[1]
+		if s.keys[from] == nil { // burn address / contract cannot sign
+			from = user()
+			class = "rnd:transfer-any-sender"
+		}
+	} else {
+		from = user()
+		id = r.Intn(len(s.hashes))
+		class = "rnd:transfer-any-sender"
+	}
+	max := 150
+	if e, ok := s.prev.eq[[2]int{from, id}]; ok && e.amt.IsInt64() && e.amt.Int64() > 0 && e.amt.Int64() < 1000000 {
+		max = int(e.amt.Int64()) + 2
+	}
+	to := anyAddr()
+	if r.Intn(12) == 0 {
+		s.nilNext = false
+		to = from
+	}
+	return s.txTransferA(from, to, s.hashes[id], s.amtTok(max), class)
 }
 
 var _ = params.OrdinaryTx
